@@ -163,6 +163,15 @@ func H_c17_tables() {
 		}
 	} else {
 		src = Source()
+		// corpus windows: the harness finds the header and delimiter lines of a table by position; a window byte
+		// that opens a container ('>') or is a vertical whitespace (VT, FF: blank-line and trimming rules of their
+		// own) moves those lines in ways this oracle does not model - kept out of the windows (stated in evidence)
+		if w := vp.ParamInt("window", 0); w > 0 && vp.ParamStr("seed", "") != "" {
+			p0 := vp.ParamInt("pos", 0)
+			for i := p0; i < p0+w && i < len(src); i++ {
+				vp.Assume(vp.Not(vp.InSet(src[i], ">\v\f")))
+			}
+		}
 	}
 	vp.Observe("src", src)
 	// optional history on the same instance: concrete documents converted first (\x1f-separated)
